@@ -176,7 +176,11 @@ class BaseEstimator(object):
                     index=row_index, columns=column_index
                 ).fillna(0)
             else:
-                state_counts = state_count_data.fillna(0)
+                # Only unobserved parent configurations (columns) are dropped; keep a row
+                # for every state of `variable`, also the ones that do not occur in the data.
+                state_counts = state_count_data.reindex(
+                    index=self.state_names[variable]
+                ).fillna(0)
 
         return state_counts
 
